@@ -21,6 +21,13 @@ CHECKS = {
  "C12": dict(engine="modelsim", cat="exploration", ref="DESIGN.md §6 C12",
    text="Differential check of every file written in seeded histories against an independent implementation of the published v2 layout, plus a golden corpus.",
    tech="deterministic simulation: seeded histories decoded by an independent v2 reader"),
+
+ "C01": dict(engine="crashsim", cat="fault_enumeration", ref="DESIGN.md §6 C01",
+   text="Crash points are enumerated per recorded history (after every I/O call and inside writes) and crossed with persisted subsets of the unsynced units (complete for small windows, structured samples otherwise); each crash image is judged by the independent decoder and by real recovery plus a follow-up commit. Histories are sampled.",
+   tech="deterministic simulation with fault injection: shadow-disk crash-state enumeration (crash point x persisted subset), decoder + real recovery oracle"),
+ "C06": dict(engine="crashsim", cat="exploration", ref="DESIGN.md §6 C06",
+   text="Invariant monitored on every pwrite of every seeded history: the written page range must not intersect the page sets of the newest committed version, of any open reader's version, or the newest meta slot.",
+   tech="deterministic simulation: I/O interposition monitor over seeded histories with held readers"),
 }
 
 NA_PENDING = {}
@@ -40,6 +47,7 @@ m = {
    "add_only": False,
  },
  "engines": [
+   {"name":"crashsim","path":"props/crashsim.go","serves_properties":["C01","C06"],"kind_free_text":"record-once history over the shadow disk, crash-state construction, real recovery; pwrite monitor"},
    {"name":"modelsim","path":"props/modelsim.go","serves_properties":["C04","C05","C07","C12"],"kind_free_text":"fault-free single-task arm of the simulator: seeded programs, reference model, independent decoder"},
  ],
  "checks": [],
